@@ -255,6 +255,10 @@ pub fn main() {
             }
         }
     }
+    if args.dump.is_some() {
+        // cases dumped for the Miri stage: small, mostly the mutable forms (their write-through is what provenance mistakes break)
+        g.retain(|c| [1usize, 2, 3, 5, 8].contains(&c.n) && c.l <= 2 * c.n + 1 && matches!(c.kind, Kind::U8 | Kind::U32 | Kind::U64 | Kind::Al32) && (c.mutable || c.l % 2 == 0));
+    }
     let acc = engine::parallel(&args, PROP, |w, workers, acc| {
         for (i, c) in g.iter().enumerate() {
             if i % workers == w {
